@@ -402,7 +402,7 @@ def run(ctx):
         'the exact normal equations come from the spec and are solved / checked with Python Fractions in the harness',
         'approx.project_L2 with geometry exists for dim 2, 3 and scalar data only (library assertion); uses the shipped '
         'mass assemblers, no on-demand compilation']
-    nvar = 6 if ctx.thorough else 2
+    nvar = 12 if ctx.thorough else 2
     runs = []
     for d in (1, 2, 3):
         runs.append(('d%d' % d, dict(Dims=frozenset({d}), NVar=nvar, Salt=1 + ctx.seed % 200, Big=bool(ctx.thorough))))
